@@ -38,6 +38,11 @@ type Case struct {
 	UnitExpr  int           // index of the expression parsed with ParseWithUnit, or -1
 	Stream    []Res
 	Reproject []int // indices of earlier results projected again at the end
+	// EarlyResidue: the parser is asked for its residue after the first expression already (and
+	// not again); FailedConfig: the parser is first offered the invalid
+	// ".config@(x y)", which it must reject without a trace
+	EarlyResidue bool `json:",omitempty"`
+	FailedConfig bool `json:",omitempty"`
 }
 
 func exprText(fs []FieldSpec) string {
@@ -233,7 +238,17 @@ type run struct {
 func doRun(c Case, order []int) (*run, string) {
 	var pp benchproc.ProjectionParser
 	r := &run{projs: make([]*benchproc.Projection, len(c.Exprs)), keys: make([][]benchproc.Key, len(c.Exprs))}
-	for _, ei := range order {
+	if c.FailedConfig {
+		if _, err := pp.Parse(".config@(x y)", nil); err == nil {
+			return nil, "Parse(\".config@(x y)\") succeeded"
+		}
+	}
+	for oi, ei := range order {
+		if c.EarlyResidue && oi == 1 {
+			// what is not projected *yet*; the expressions parsed afterwards are unaffected by
+			// the question having been asked (this residue is the only one taken in this run)
+			r.residue = pp.Residue()
+		}
 		text := exprText(c.Exprs[ei])
 		var err error
 		if ei == c.UnitExpr {
@@ -245,7 +260,9 @@ func doRun(c Case, order []int) (*run, string) {
 			return nil, fmt.Sprintf("Parse(%q): %v", text, err)
 		}
 	}
-	r.residue = pp.Residue()
+	if r.residue == nil {
+		r.residue = pp.Residue()
+	}
 	for _, sr := range c.Stream {
 		res := mkResult(sr)
 		for ei, p := range r.projs {
@@ -487,12 +504,20 @@ func Check(c Case) (v vcase.Verdict) {
 			}
 		}
 	}
-	if fmt.Sprint(flatNames(A.residue)) != fmt.Sprint(flatNames(B.residue)) {
+	// (after an early Residue call the final residue holds what neither a projection nor the
+	// earlier residue covers - "not yet projected by any projection parsed by p" -, which
+	// depends on what had been parsed when the early question was asked)
+	if !c.EarlyResidue && fmt.Sprint(flatNames(A.residue)) != fmt.Sprint(flatNames(B.residue)) {
 		v.Failf("residue fields %v vs %v depending on parse order", flatNames(A.residue), flatNames(B.residue))
 		return
 	}
 	// residue structure: exactly the groups not projected, without specific keys
-	for _, f := range A.residue.Fields() {
+	// (an early residue covers what had not been projected when it was taken: not checked here)
+	resFields := A.residue.Fields()
+	if c.EarlyResidue {
+		resFields = nil
+	}
+	for _, f := range resFields {
 		switch {
 		case f.Name == ".config" && !hasConfig:
 			for _, sf := range f.Sub {
@@ -508,7 +533,7 @@ func Check(c Case) (v vcase.Verdict) {
 		}
 	}
 	for i, k := range A.rkeys {
-		for _, f := range A.residue.Fields() {
+		for _, f := range resFields {
 			if f.Name == ".fullname" {
 				if got, want := k.Get(f), rc.remainderName(c.Stream[i].Name); got != want {
 					v.Failf("residue .fullname of %q = %q, reference %q (specific name keys %v)", c.Stream[i].Name, got, want, rc.nameKeys)
@@ -539,7 +564,7 @@ func Check(c Case) (v vcase.Verdict) {
 	if overridden {
 		v.Label("file_key_overridden_by_tool")
 	}
-	if allDistinct && !overridden {
+	if allDistinct && !overridden && !c.EarlyResidue {
 		for i := range c.Stream {
 			for j := i + 1; j < len(c.Stream); j++ {
 				agree := A.rkeys[i] == A.rkeys[j]
@@ -728,6 +753,8 @@ func Gen(t *rapid.T) Case {
 		}
 		c.Stream = append(c.Stream, r)
 	}
+	c.EarlyResidue = vcase.OneIn(t, 4, "earlyresidue")
+	c.FailedConfig = vcase.OneIn(t, 5, "failedconfig")
 	nr := rapid.IntRange(0, 3).Draw(t, "nreproj")
 	for i := 0; i < nr; i++ {
 		c.Reproject = append(c.Reproject, rapid.IntRange(0, len(c.Stream)-1).Draw(t, "reproj"))
